@@ -26,7 +26,7 @@ RULE = (
     "distinct by (A, B, warm/cold, file:line of the switch) for the single-pre-emption family and by the hash of the executed (thread, steps) segments for seeded multi-switch schedules"
 )
 ASSUMPTIONS = [
-    "pre-emption at source-line granularity under the GIL (opcode granularity for a sampled subset in the thorough tier); no claim about free-threaded builds or the regex C extension",
+    "pre-emption at source-line granularity under the GIL (opcode-level tracing was tried and dropped: f_trace_opcodes segfaults CPython 3.12.1 in this set-up); no claim about free-threaded builds or the regex C extension",
     "switches are not placed inside foreign critical sections (stdlib _strptime cache lock) or the import machinery: an under-approximation that can miss, never invent, a violation",
     "frozen simulated clock (both calls see the same instant) and fixed hash seed, so step counts are reproducible and a (thread, steps) plan replays exactly",
     "the concurrent outcome pair must equal the sequential pair of one of the two orders (a residual history effect is C03's business, not C20's)",
@@ -355,7 +355,7 @@ def explore_seeded(farm, rep, pairs, tier, seed, stats, n):
         for _ in range(nsw):
             plan.append([rng.randrange(nthreads), rng.choice([1, 2, 5, 20, 50, 100, 200, 400, 800, 1500, rng.randrange(1, 2500)])])
         warm = rng.random() < 0.5
-        payloads.append({"calls": calls, "warm": warm, "zone": "UTC", "plan": plan, "opcode": tier == "thorough" and rng.random() < 0.15})
+        payloads.append({"calls": calls, "warm": warm, "zone": "UTC", "plan": plan, "opcode": False})  # opcode-level tracing (f_trace_opcodes) segfaults CPython 3.12.1 when tracing is switched off mid-run: line granularity only
         meta.append((chosen, warm))
     results = farm.map("checks.c20_sched:run_plan", payloads, timeout=300)
     # sequential references: all permutations of the calls
